@@ -250,6 +250,50 @@ FEATURES = [
      ('PUT', '/allocations/' + CONS(5),
       {'allocations': ALLOC_DICT, 'project_id': 'p', 'user_id': 'u',
        'consumer_generation': None, 'mappings': {'': [U(1)]}}), ok),
+    (34, 38, 'mappings accepted in POST /allocations',
+     ('POST', '/allocations', {CONS(5): {
+         'allocations': ALLOC_DICT, 'project_id': 'p', 'user_id': 'u',
+         'consumer_generation': None, 'mappings': {'': [U(1)]}}}), st(204)),
+    (34, 38, 'mappings accepted in POST /reshaper',
+     ('POST', '/reshaper', {'inventories': {U(3): {
+         'resource_provider_generation': 0, 'inventories': {}}},
+         'allocations': {CONS(1): {
+             'allocations': {U(1): {'resources': {'VCPU': 1}}},
+             'project_id': 'proj', 'user_id': 'user',
+             'consumer_generation': 1, 'mappings': {'': [U(1)]}}}}),
+     st(204)),
+    (38, None, 'mappings + consumer_type accepted in POST /reshaper',
+     ('POST', '/reshaper', {'inventories': {U(3): {
+         'resource_provider_generation': 0, 'inventories': {}}},
+         'allocations': {CONS(1): {
+             'allocations': {U(1): {'resources': {'VCPU': 1}}},
+             'project_id': 'proj', 'user_id': 'user',
+             'consumer_generation': 1, 'consumer_type': 'INSTANCE',
+             'mappings': {'': [U(1)]}}}}), st(204)),
+    (38, None, 'consumer_type accepted in POST /allocations',
+     ('POST', '/allocations', {CONS(5): {
+         'allocations': ALLOC_DICT, 'project_id': 'p', 'user_id': 'u',
+         'consumer_generation': None, 'consumer_type': 'INSTANCE'}}),
+     st(204)),
+    (38, None, 'consumer_type accepted in POST /reshaper',
+     ('POST', '/reshaper', {'inventories': {U(3): {
+         'resource_provider_generation': 0, 'inventories': {}}},
+         'allocations': {CONS(1): {
+             'allocations': {U(1): {'resources': {'VCPU': 1}}},
+             'project_id': 'proj', 'user_id': 'user',
+             'consumer_generation': 1, 'consumer_type': 'INSTANCE'}}}),
+     st(204)),
+    (28, 38, 'consumer_generation accepted in POST /allocations',
+     ('POST', '/allocations', {CONS(5): {
+         'allocations': ALLOC_DICT, 'project_id': 'p', 'user_id': 'u',
+         'consumer_generation': None}}), st(204)),
+    (30, 38, 'POST /reshaper without consumer_type',
+     ('POST', '/reshaper', {'inventories': {U(3): {
+         'resource_provider_generation': 0, 'inventories': {}}},
+         'allocations': {CONS(1): {
+             'allocations': {U(1): {'resources': {'VCPU': 1}}},
+             'project_id': 'proj', 'user_id': 'user',
+             'consumer_generation': 1}}}), st(204)),
     (35, None, 'root_required',
      cand('resources=VCPU:1&root_required=' + T1), st(200)),
     (36, None, 'same_subtree',
